@@ -52,6 +52,66 @@ PROPS = {
                      "2Q quotas are taken as data here (C08 ties them to the ratios)",
                      "W-TinyLFU: the Bloom geometry is data validated by bloom_geometry_ok on every instance"],
     ),
+    "C05": dict(
+        props_files=["C05"],
+        theorems={"C05": ["C05_slru_total", "C05_twoq_total", "C05_arc_total", "C05_wtiny_total",
+                          "C05_tiny_increment", "C05_tiny_estimate", "C05_tiny_contains", "C05_tiny_compare",
+                          "C05_tiny_reset_clear", "C05_tiny_ctor", "C05_tiny_ctor_rejects"]},
+        slices=dict(
+            quick=lru_slices(800, 150, 1, 100000) + comp_slices(800, 150, 500)
+            + [dict(name="tiny", slice="tiny", args=["--n", 600, "--len", 150], shards=2),
+               dict(name="sampled", slice="sampled", args=["--n", 400, "--len", 100], shards=2),
+               dict(name="tiny-nostd", slice="tiny", args=["--n", 600, "--len", 150], shards=2, features="nostd"),
+               dict(name="wtiny-nostd", slice="wtiny", args=["--n", 400, "--len", 150], shards=2, features="nostd"),
+               dict(name="arc-nostd", slice="arc", args=["--n", 400, "--len", 150], shards=2, features="nostd"),
+               dict(name="lru-nostd", slice="lru", args=["--n", 400, "--len", 150], shards=2, features="nostd")],
+            thorough=lru_slices(20000, 400, 3, 1000000) + comp_slices(20000, 400, 10000)
+            + [dict(name="tiny", slice="tiny", args=["--n", 20000, "--len", 400], shards=8),
+               dict(name="sampled", slice="sampled", args=["--n", 8000, "--len", 300], shards=4),
+               dict(name="tiny-nostd", slice="tiny", args=["--n", 20000, "--len", 400], shards=8, features="nostd"),
+               dict(name="wtiny-nostd", slice="wtiny", args=["--n", 8000, "--len", 400], shards=8, features="nostd"),
+               dict(name="arc-nostd", slice="arc", args=["--n", 8000, "--len", 400], shards=8, features="nostd"),
+               dict(name="twoq-nostd", slice="twoq", args=["--n", 8000, "--len", 400], shards=8, features="nostd"),
+               dict(name="slru-nostd", slice="slru", args=["--n", 8000, "--len", 400], shards=8, features="nostd"),
+               dict(name="lru-nostd", slice="lru", args=["--n", 8000, "--len", 400], shards=8, features="nostd")]),
+        corpus=ALL_CORPUS + ["tiny", "sampled"],
+        monitors=["mon_c05"],
+        partial="constructor validation (ratio / NaN / size grid) is not yet part of this check; allocation failure, "
+                "sizes >= 2^32 counters and i64 overflow of SampledLFU costs are outside the statement",
+        assumptions=["Bloom geometry (size_exp, set_locs) is data validated by bloom_geometry_ok on every real instance",
+                     "hashes are below 2^64 (u64)"],
+    ),
+    "C16": dict(
+        props_files=["C16"],
+        theorems={"C16": ["C16_lru_clone_identical", "C16_lru_same_future", "C16_slru_clone_identical",
+                          "C16_wtiny_clone_identical", "C16_tiny_clone_identical"]},
+        slices=dict(
+            quick=lru_slices(2500, 150, 2, 100000)
+            + [dict(name="slru", slice="slru", args=["--n", 2500, "--len", 150], shards=4),
+               dict(name="wtiny", slice="wtiny", args=["--n", 1200, "--len", 150], shards=4),
+               dict(name="tiny", slice="tiny", args=["--n", 800, "--len", 150], shards=2)],
+            thorough=lru_slices(40000, 400, 3, 1000000)
+            + [dict(name="slru", slice="slru", args=["--n", 40000, "--len", 400], shards=8),
+               dict(name="wtiny", slice="wtiny", args=["--n", 20000, "--len", 400], shards=8),
+               dict(name="tiny", slice="tiny", args=["--n", 20000, "--len", 400], shards=8)]),
+        corpus=["lru", "slru", "wtiny", "tiny"],
+        monitors=["mon_c16"],
+        partial="identity of the clone is proved for every reachable state; independence of the two heaps is carried "
+                "by the correspondence run (every hasher, original dropped right after the clone), not by a theorem",
+        assumptions=["the model's states are values; sharing between a clone and its original can only be observed on the "
+                     "implementation (structural audit, drop ledger, allocator poison)"],
+    ),
+    "C20": dict(
+        props_files=["C20"],
+        theorems={"C20": ["C20_room_left_exact", "C20_tracked_keys_distinct", "C20_update_reports_tracked",
+                          "C20_remove_reports_cost", "C20_fill_sample"]},
+        slices=dict(quick=[dict(name="sampled", slice="sampled", args=["--n", 4000, "--len", 150], shards=8)],
+                    thorough=[dict(name="sampled", slice="sampled", args=["--n", 80000, "--len", 400], shards=16)]),
+        corpus=["sampled"],
+        monitors=["mon_c20"],
+        assumptions=["costs stay far from the i64 range (the model is over Z)",
+                     "fill_sample: the hash map's iteration order is taken from the real output and validated"],
+    ),
     "C06": dict(
         props_files=["C06"],
         theorems={"C06": ["C06_recency_order", "C06_eviction_takes_lru", "C06_peek_lru", "C06_remove_lru",
